@@ -4,6 +4,7 @@ A compiled regex is, by A-re, a *function* of the subject string: `search` finds
 whose span lies inside the subject (RX_FOUND / RX_START / RX_END below are uninterpreted functions of
 (regex, subject); which strings match is not modelled). Over that view the body must
 
+  * look at every line: iteration k handles line k, and there are len(lines) iterations;
   * yield, for line k, exactly when the regex finds a non-empty match on lines[k] (no occurrence is dropped, none
     is invented) - at most once per line, in line order;
   * report it truthfully: lineno == k, line == lines[k], pattern is the argument, span == the regex's span,
@@ -80,6 +81,7 @@ def _ifp_on_yield(a, v, st):
 def _ifp_invariant(a, vs, k, cx, st):
     good = b_not(v_truthy(vs["ghost:yield_bad"]))
     if st.ghost.get("loop_k") is None:  # on entry, assumed at the head of an arbitrary iteration, after the loop
+        st.ghost["lines_covered"] = k  # after the loop: the number of iterations the loop has made
         return good
     n = st.ghost.get("yields_in_iter", 0)  # end of the body of iteration k-1: yields on this path (0 before the loop)
     last = V.z3int(k) - 1
@@ -104,5 +106,9 @@ c.loop(
         name="C03+C07._iter_for_pattern.each_line_yields_exactly_when_the_regex_finds_a_non_empty_match",
         props=("C03", "C07"),
     ),
+)
+c.ensures(
+    "C03+C07._iter_for_pattern.every_line_of_the_file_is_searched",
+    lambda a, res, cx: cx.ghost.get("lines_covered") is not None and V.z3int(cx.ghost["lines_covered"]) == a.lines.n,
 )
 c.ensures("C03+C07._iter_for_pattern.every_yield_is_the_regex_match_of_its_line_reported_truthfully", lambda a, res, cx: b_not(v_truthy(cx.ghost["yield_bad"])))
